@@ -11,7 +11,7 @@ Concurrency clause: the two constructors' check-then-append windows under a symb
 from typing import List
 
 from vf.driver import Q
-from vf.h import REPLAY, P, reached, note, lib_errors
+from vf.h import REPLAY, P, reached, note, lib_errors, untraced
 
 from crosshair.core import IgnoreAttempt
 
@@ -194,6 +194,53 @@ def retention():
     return {"verdict": "proved", "obligation": f"history of {N} requests, oldest identifiers still refused (enumeration)"}
 
 
+def survives(h1: int, e1: int, h2: int, e2: int) -> bool:
+    """
+    pre: all(0 <= x < 2**32 for x in (h1, e1, h2, e2)) and h1 != h2 and e1 != e2
+    pre: P["op"] != "association" or (h1, e1, h2, e2) == (0x11000001, 0x22000001, 0x11000002, 0x22000002)
+    post: _
+    """
+    # (on the association path the identifiers become dict keys - pending requests - hence concrete there)
+    # between two creations the request goes through other PUBLIC operations (grid): the identifiers of the first request
+    # must still be refused when the random source offers them again afterwards ("never reused within a process")
+    _fill([], [])
+    _OS.two_valued = False
+    op = P["op"]
+    if op == "association":
+        # (the node's own base requests draw their identifiers first, from an unrelated range)
+        from vf.standin import Node, _DIAMETERS
+        _DIAMETERS.clear()
+        _OS.seq, _OS.i, _OS.log = list(range(0x33000000, 0x33000040)), 0, []
+        node = Node("CLIENT", watchdog=10 ** 6)
+    _OS.seq, _OS.i, _OS.log = [h1, e1, h1, h2, e1, e2], 0, []
+    r1 = _make(P["kind"])
+    if True:
+        if op == "association":
+            # queued on a live association, written out, then the connection is closed and the node object restarted
+            node.force_state("Open")
+            node.assoc.state_is_active = True
+            node.transport.events = [("busy", 1)]
+            node.d.send_message(r1)
+            node.tick()
+            node.flush()
+            node.assoc.close()
+            Node("CLIENT", reuse=node)
+        elif op == "codec":
+            from bromelia.base import DiameterMessage
+            DiameterMessage.load(r1.dump() + r1.dump())
+            r1.copy()
+            DiameterMessage.convert(r1)
+        elif op == "answers":
+            from bromelia.base import DiameterAnswer, DiameterHeader
+            DiameterAnswer(header=DiameterHeader(command_code=316, hop_by_hop=r1.header.hop_by_hop, end_to_end=r1.header.end_to_end))
+            DiameterRequest(header=DiameterHeader(command_code=316, hop_by_hop=r1.header.hop_by_hop, end_to_end=r1.header.end_to_end))
+    r2 = _make(P["kind"])
+    reached()
+    got = (int.from_bytes(r2.header.hop_by_hop, "big"), int.from_bytes(r2.header.end_to_end, "big"))
+    if REPLAY: note(op=op, first=(h1, e1), second=got)
+    return int.from_bytes(r1.header.hop_by_hop, "big") == h1 and int.from_bytes(r1.header.end_to_end, "big") == e1 and got == (h2, e2)
+
+
 _CO = {}
 
 
@@ -276,6 +323,11 @@ def queries(tier, seed):
         for m, d in ([(0, 2), (2, 4)] if tier == "quick" else [(0, 2), (1, 3), (2, 4), (3, 5), (3, 6)]):
             qs.append(Q(f"step/{kind}/m{m}d{d}", "step", {"kind": kind, "m": m, "d": d}, cto=t, pto=t,
                         what=f"inductive step: registry of {m} symbolic ids, {d} symbolic draws (repeats allowed), one {kind} request"))
+    for op in ("association", "codec", "answers"):
+        qs.append(Q(f"survives/{op}", "survives", {"kind": "generic", "op": op}, cto=t, pto=t,
+                    what=f"between two creations the first request goes through '{op}' (queued / written / connection closed / node restarted; "
+                         f"encoded, decoded, copied, converted; answers and explicit-header requests with its identifiers): its identifiers, "
+                         f"offered again by the random source, are still refused (all values symbolic)"))
     for kind in ("answer", "answer_hdr", "request_hdr", "message", "typed_answer"):
         qs.append(Q(f"no_consume/{kind}", "no_consume", {"kind": kind}, cto=t, pto=t,
                     what=f"{kind}: registries and random source untouched"))
